@@ -305,7 +305,8 @@ class NetStation(_StationBase):
         self.simbus.transmit(self, can_id, data, ext, rtr, dlc=msg.dlc)
 
     def send_periodic(self, msgs, period, duration=None, store_task=True, **kw):
-        cls = ModifiableCopyTask if self.modifiable == "copy" else ModifiableTask if self.modifiable else PlainTask
+        cls = (ModifiableCopyTask if self.modifiable == "copy" else RestartableTask if self.modifiable == "restartable"
+               else ModifiableTask if self.modifiable else PlainTask)
         task = cls(self, msgs, period)
         self.tasks.append(task)
         self.task_log.append(task)
@@ -447,6 +448,16 @@ class PlainTask(_TaskBase):
 
     def current(self):
         return self._snap
+
+
+class RestartableTask(PlainTask):
+    """A fixed-frame task that can be re-armed after stop() (python-can's RestartableCyclicTaskABC, e.g. the IXXAT
+    back end): start() resumes transmitting the frame the task was created with."""
+
+    def start(self):
+        self.stopped = False
+        if self not in self.station.tasks:
+            self.station.tasks.append(self)
 
 
 def make_network(bus, name, via="listener", **kw):
